@@ -98,6 +98,13 @@ def gen_session(rnd, maxlen=60):
     s = []
     if rnd.random() < 0.7:
         s.append(("uci", 0))
+    if rnd.random() < 0.15:
+        # pondering on a position of the built-in opening book with the book enabled: the book move must be held back like any other
+        s.append(("setoption name OwnBook value true", 0))
+        s.append(("position startpos" + rnd.choice(["", " moves e2e4", " moves e2e4 e7e5", " moves d2d4 d7d5"]), 0))
+        s.append((rnd.choice(["go ponder wtime 1000 btime 1000", "go ponder depth 4", "go ponder movetime 50", "go infinite"]), 0))
+        s.append((rnd.choice(["isready", "isready", "setoption name Hash value 4"]), rnd.choice([0.02, 0.1])))
+        s.append((rnd.choice(["ponderhit", "stop"]), rnd.choice([0.0, 0.05])))
     for _ in range(n):
         r = rnd.random()
         dly = rnd.choice([0, 0, 0, 0.002, 0.01, 0.03])
